@@ -18,10 +18,10 @@ def astep (c : Cache κ ν) (a : AMap κ ν) : Ev κ ν → AMap κ ν
   | .del k => a.del k
   | .fire i =>
     match c.pending[i]? with
-    | some s => if s.due ≤ c.now then a.del s.key else a
+    | some s => if s.due ≤ c.mono then a.del s.key else a
     | none => a
   | .adv d =>
-    (c.pending.takeWhile (fun s => decide (s.due ≤ c.now + (d : Nat)))).foldl (fun a s => a.del s.key) a
+    (c.pending.filter (fun s => decide (s.due ≤ c.mono + (d : Nat)))).foldl (fun a s => a.del s.key) a
   | _ => a
 
 theorem abs_erase (c : Cache κ ν) (k : κ) (es : List (κ × Entry ν)) (h : es = erase k c.entries)
@@ -82,7 +82,7 @@ theorem abs_step (c : Cache κ ν) (ev : Ev κ ν) : abs (step c ev).1 = astep c
       | none => rfl
       | some s =>
         simp only [hp] at h1
-        by_cases hd : s.due ≤ c.now
+        by_cases hd : s.due ≤ c.mono
         · simp [hd] at h1
         · simp [hd]
     · rw [h1]
@@ -91,13 +91,14 @@ theorem abs_step (c : Cache κ ν) (ev : Ev κ ν) : abs (step c ev).1 = astep c
       | none => rfl
       | some s =>
         simp only [hp] at h1
-        by_cases hd : s.due ≤ c.now
+        by_cases hd : s.due ≤ c.mono
         · simp [hd] at h1
         · simp [hd]
     · rw [h1, hs]
       simp only [hd, if_true]
       exact abs_erase c s.key _ rfl _ rfl
   | skip d => rfl
+  | wstep d => rfl
   | adv d => exact abs_clearAll c _
   | probe => rfl
 
